@@ -68,3 +68,22 @@ Definition named_try_new (name : str) : outcome namedcal :=
   | [p0; p1] => do cs <- parse_cals p0; do ss <- parse_cals p1; Ok (mkNamed name_ (mkUCal cs (Some ss)))
   | _ => Err
   end.
+
+(* impl DateRoll for NamedCal :184 — everything is delegated to the stored union *)
+Definition ncal_is_weekday (n : namedcal) (d : Z) : bool := ucal_is_weekday (n_ucal n) d.
+Definition ncal_is_holiday (n : namedcal) (d : Z) : bool := ucal_is_holiday (n_ucal n) d.
+Definition ncal_is_bus (n : namedcal) (d : Z) : bool := ucal_is_bus (n_ucal n) d.
+Definition ncal_is_settle (n : namedcal) (d : Z) : bool := ucal_is_settle (n_ucal n) d.
+
+(* the PartialEq impls of calendar.rs:224-270; `other` is any DateRoll, given by its two predicates.
+   (`cal_date_range` is the trait's default method for every calendar kind, so the two zipped date
+   vectors are the same days 1970-01-01..2200-12-31.) *)
+(* impl<T: DateRoll> PartialEq<T> for UnionCal :224 *)
+Definition ucal_eq_any (u : ucal) (bus2 settle2 : Z -> bool) : bool :=
+  dr_eq (ucal_is_bus u) (ucal_is_settle u) bus2 settle2.
+(* impl<T: DateRoll> PartialEq<T> for NamedCal :242 — self.union_cal.eq(other) *)
+Definition ncal_eq_any (n : namedcal) (bus2 settle2 : Z -> bool) : bool := ucal_eq_any (n_ucal n) bus2 settle2.
+(* impl PartialEq<UnionCal> for Cal :251 is Calendar.cal_eq_ucal;
+   impl PartialEq<NamedCal> for Cal :267 — other.union_cal.eq(self) *)
+Definition cal_eq_ncal (c : cal) (n : namedcal) : bool :=
+  ucal_eq_any (n_ucal n) (cal_is_bus c) (cal_is_settle c).
